@@ -22,6 +22,64 @@ CLAIMED = {
         technique="Lean 4 invariant proof over update histories + differential correspondence"),
 }
 
+SOLVER_NOTE = TRUST + ("species are root paths (justified by C17); the model stores decoded solutions per table cell "
+    "instead of tags; cost vectors inside the coherent region (F-COHERENCE recorded in known_findings.json).")
+
+CLAIMED.update({
+    "C01": dict(
+        text="Partial proof + exploration of the remainder. Proved in Lean for all inputs: reconcile_exhaustive / "
+             "reconcile_thl return exactly the arg-minima (by the evaluator) of the enumerated / decoded candidates, "
+             "duplicate-free; the coherence hypothesis is necessary (kernel-checked witness). The optimality of the "
+             "table recurrence and the completeness of the enumerator are stated in Lean and currently decided by the "
+             "correspondence: real solvers vs Lean model (same solution sets) vs Lean specification (minimum over all "
+             "valid mappings; enumerator = filter of all mappings) on random and bounded-exhaustive inputs.",
+        design="7 C01", note=SOLVER_NOTE, technique="Lean 4 model + partial proof; differential correspondence against model and brute-force spec"),
+    "C02": dict(
+        text="Partial proof + exploration. Proved: result = arg-min of the evaluated cost over decoded table solutions "
+             "of all root orders, duplicate-free; empty when no root order exists. Optimality of the ordered label DP is "
+             "stated in Lean and decided by correspondence against the Lean specification (minimum over all species "
+             "mappings, root orders and subsequence labellings; LCA-restricted for the base solver).",
+        design="7 C02", note=SOLVER_NOTE, technique="Lean 4 model + partial proof; differential correspondence against model and brute-force spec"),
+    "C03": dict(
+        text="Partial proof + exploration. Proved: result = arg-min of the evaluated cost over decoded table solutions. "
+             "The full statement (optimal among ALL labellings between required and allowed content) is stated in Lean, "
+             "not proved, and explored against the brute-force Lean specification over every such labelling.",
+        design="7 C03", note=SOLVER_NOTE, technique="Lean 4 model + partial proof; differential correspondence against brute-force spec over all labellings"),
+    "C04": dict(
+        text="Partial proof + exploration. Proved: the LCA reconciliation is valid for every input; results of every "
+             "solver are among its decoded candidates. Validity of every returned solution of all seven algorithms, "
+             "both policies, including refinements of multifurcating inputs, is evaluated by the Lean specification "
+             "Spec.validSol on the implementation's outputs.",
+        design="7 C04", note=SOLVER_NOTE, technique="Lean 4 validity specification evaluated on real outputs + partial proof"),
+    "C05": dict(
+        text="Partial proof + exploration. Proved for the result entry shared by all solvers: exactly the arg-minima of "
+             "the candidates, each once, all of equal cost, empty iff no candidate. Equality of the 'all' result with the "
+             "complete optimal set of the Lean specification (canonical labellings for the unordered solvers), and "
+             "membership/uniqueness of the 'any' result, are decided on generated inputs with ties over-sampled.",
+        design="7 C05", note=SOLVER_NOTE, technique="Lean 4 proof of the arg-min entry + differential correspondence against the spec's optimal set"),
+    "C17": dict(
+        text="Full Lean 4 proof for trees of any arity and size: the Euler-tour + sparse-table model of "
+             "LowestCommonAncestor returns the longest common prefix (deepest common ancestor) of its arguments, never "
+             "compares two distinct TreeNodes (no TypeError), and the five derived queries equal their parent-chain "
+             "definitions; RangeMinQuery returns the minimum of exactly the half-open range. Model tied to the code by "
+             "exhaustive small shapes / arrays and random larger ones, including the internal tables.",
+        design="7 C17", note=TRUST + "TreeNode identity modelled as path equality; negative indices outside the model.",
+        technique="Lean 4 structural-induction proof + differential correspondence"),
+    "C18": dict(
+        text="Full Lean 4 proof for unbounded masks and sequences: mask/sequence round trips in both directions, "
+             "segment distance = -1 iff not contained, otherwise the number of lost runs (ends ignored when excluded), "
+             "bridge to runs counted on sequences. Model tied to subsequences.py by exhaustive mask pairs and sequences.",
+        design="7 C18", note=TRUST + "masks are naturals (negative masks outside the model).",
+        technique="Lean 4 proof + exhaustive differential correspondence"),
+    "C19": dict(
+        text="Full Lean 4 proof for all well-formed digraphs: toposort_all returns exactly the topological orderings, "
+             "each once (none on cyclic graphs), toposort returns one iff one exists, neither fails; the precedence "
+             "graph's orderings are exactly the family orders having every leaf synteny as a subsequence. Model tied "
+             "to toposort.py by all digraphs on <= 4 vertices and random larger ones.",
+        design="7 C19", note=TRUST + "hash-order of Python sets modelled as list order (results compared as sets); find_cycle not modelled.",
+        technique="Lean 4 proof (greedy-removal invariant) + exhaustive differential correspondence"),
+})
+
 PENDING = "check not built yet in this round (planned: Lean 4 model + proof + correspondence, see DESIGN.md section 7)"
 
 
